@@ -1051,3 +1051,123 @@ def run_unit(unit):
         if k % n == c:
             run_spec(gen, spec, acc, sample=(k // n) % 7 == 3)
     return acc
+
+
+# =================================================================================================
+# ill-formed states reached AFTER construction (a member function mutated, a rejected add, a rename that collides, an
+# unknown storage name hidden behind a valid one): the same oracle — an exception before any user code, folder untouched
+# =================================================================================================
+import shutil as _shutil  # noqa: E402
+
+POST_CASES = [
+    {"post": "member-update-defaults", "via": "map"}, {"post": "member-update-defaults", "via": "map-prior-folder"},
+    {"post": "member-update-defaults", "via": "run"},
+    {"post": "member-unbind", "via": "map"}, {"post": "member-unbind", "via": "run"},
+    {"post": "rejected-add-then-use", "via": "map"}, {"post": "rejected-add-then-use", "via": "run"},
+    {"post": "rename-output-to-duplicate", "via": "map"}, {"post": "rename-output-to-duplicate", "via": "run"},
+    {"post": "scope-output-to-duplicate", "via": "run"},
+    {"post": "storage-unknown-after-valid-entry", "via": "map"}, {"post": "storage-unknown-after-valid-entry", "via": "map-prior-folder"},
+]
+
+
+def _post_pipeline(mapped):
+    from pipefunc import PipeFunc, Pipeline
+    f = terms.make_function("f", ["x", "b"], sig_defaults={"b": 1})
+    g = terms.make_function("g", ["y", "b"], sig_defaults={"b": 1})
+    h = terms.make_function("k", ["x"])
+    if mapped:
+        fs = [PipeFunc(f, "y", mapspec="x[i] -> y[i]"), PipeFunc(g, "z", mapspec="y[i] -> z[i]"), PipeFunc(h, "w", mapspec="x[i] -> w[i]")]
+    else:
+        fs = [PipeFunc(f, "y"), PipeFunc(g, "z"), PipeFunc(h, "w")]
+    with _quiet():
+        return Pipeline(fs)
+
+
+def run_post(case):  # noqa: C901, PLR0912
+    from pipefunc import PipeFunc
+    kind, via = case["post"], case["via"]
+    mapped = via.startswith("map")
+    p = _post_pipeline(mapped)
+    inputs = {"x": ["x0", "x1"]} if mapped else {"x": "x0"}
+    base = boot.mkscratch("c12p-")
+    folder = os.path.join(base, "run")
+    raised_at = None
+    storage = "file_array"
+    try:
+        if via == "map-prior-folder":
+            with _quiet():
+                p.map(dict(inputs), run_folder=folder, parallel=False, storage="file_array")
+        before = snapshot(folder) if os.path.isdir(folder) else None
+        terms.LOG.clear()
+        try:
+            with _quiet():
+                if kind == "member-update-defaults":
+                    p["z"].update_defaults({"b": 5})
+                elif kind == "member-unbind":
+                    p["z"].update_bound({"b": 1})  # consistent while bound …
+                    p["z"].update_defaults({"b": 7})  # … (a default of a bound parameter is ignored)
+                    p["z"].update_bound({}, overwrite=True)  # … and now the conflicting default is exposed
+                elif kind == "rejected-add-then-use":
+                    h = terms.make_function("h", ["z", "b"], sig_defaults={"b": 9})
+                    try:
+                        p.add(PipeFunc(h, "v", mapspec="z[i] -> v[i]" if mapped else None))
+                    except ValueError:
+                        pass  # the caller ignores the rejection and goes on using the pipeline
+                elif kind == "rename-output-to-duplicate":
+                    p.update_renames({"w": "z"})  # k's output now has the same name as g's
+                elif kind == "scope-output-to-duplicate":
+                    p.update_renames({"z": "s.w"})
+                    p.update_scope("s", outputs={"w"})  # w -> s.w collides with g's output
+                elif kind == "storage-unknown-after-valid-entry":
+                    storage = {"y": "file_array", "": "bogus"}
+        except Exception as e:  # noqa: BLE001
+            raised_at = "mutation:" + type(e).__name__
+        if raised_at is None:
+            try:
+                with _quiet():
+                    if mapped:
+                        p.map(dict(inputs), run_folder=folder, parallel=False, storage=storage, cleanup=False)
+                    else:
+                        p("z", **inputs)
+            except Exception as e:  # noqa: BLE001
+                raised_at = "use:" + type(e).__name__
+        out = []
+        sig = {"kind": None, "op": "post:" + kind, "api": via}
+        if raised_at is None:
+            out.append(({**sig, "kind": "accepted-invalid"}, f"{kind} via {via}: the ill-formed pipeline/request was accepted; user calls {[n for n, _ in terms.LOG]}"))
+        elif terms.LOG:
+            out.append(({**sig, "kind": "user-code-ran"}, f"{kind} via {via}: rejected ({raised_at}) only after user code ran: {[n for n, _ in terms.LOG]}"))
+        if before is not None:
+            after = snapshot(folder)
+            if after != before:
+                out.append(({**sig, "kind": "folder-altered"}, f"{kind} via {via}: the run folder opened with cleanup=False was altered: {snap_diff(before, after)}"))
+        return out
+    finally:
+        _shutil.rmtree(base, ignore_errors=True)
+
+
+_orig_plan, _orig_run_unit, _orig_replay = plan, run_unit, replay
+
+
+def plan(tier, seed):  # noqa: F811
+    out = _orig_plan(tier, seed)
+    out.extend(("post-construction-mutations", ("post", k)) for k in range(len(POST_CASES)))
+    return out
+
+
+def run_unit(unit):  # noqa: F811
+    if unit[0] == "post":
+        acc = Acc()
+        case = POST_CASES[unit[1]]
+        acc.case(hash(str(case)))
+        acc.stratum("post:" + case["post"])
+        for sig, text in run_post(case):
+            acc.violation(sig, case, text)
+        return acc
+    return _orig_run_unit(unit)
+
+
+def replay(art):  # noqa: F811
+    if "post" in art:
+        return [s for s, _ in run_post(art)]
+    return _orig_replay(art)
